@@ -508,7 +508,7 @@ def buffer_layout(facts, body):
         buf = r.attrs["b64_of"]
         names = None
         if isinstance(buf, A.Seq) and buf.chunks is not None:
-            names = [c[1] if c[0] == "seq" else repr(c) for c in buf.chunks]
+            names = [c[1] if c[0] == "seq" else (c[1].name if c[0] == "arg" and isinstance(c[1], A.Seq) and c[1].chunks is None and c[1].elems is None else repr(c)) for c in buf.chunks]
         elif isinstance(buf, A.Seq) and "writes" in buf.attrs:
             ws = sorted(buf.attrs["writes"], key=lambda w: (len(w[0].terms), w[0].const))
             pos = A.Aff(0)
